@@ -76,7 +76,13 @@ pub fn job_c09(out_dir: &str, tier: &str, seed: u64) {
                 // cumulative bytes written after each write
                 let mut written: Vec<usize> = cuts.iter().cloned().filter(|&c| c <= input.len()).collect();
                 written.push(input.len());
-                if written.len() != emitted.len() { continue; } // a write failed (not this property)
+                if written.len() != emitted.len() {
+                    // non-strict, no failing handler, no limit: a write cannot fail
+                    let why = tl.iter().filter(|e| e["e"] == "ret" && e["res"] != "ok").map(|e| e["res"].as_str().unwrap_or("?").to_string()).next().unwrap_or_default();
+                    let rec = json!({"id": format!("c09-{}", { n += 1; n }), "failed": why});
+                    sh.push(&rec, &json!({"id": rec["id"], "cfg": cfg, "input": input, "cuts": cuts, "kind": kind}), None, true);
+                    continue;
+                }
                 // empty prefixes (leading empty write) have nothing to compare
                 let idx: Vec<usize> = (0..written.len()).filter(|&i| written[i] >= 1).collect();
                 let rec = json!({"id": format!("c09-{}", { n += 1; n }), "clauses": ["C09"], "kind": kind, "texth": has_text_handler(&cfg),
